@@ -74,5 +74,7 @@ mod chunk_timing_stats;
 pub use chunk_timing_stats::*;
 
 mod search;
+#[cfg(feature = "verif-hooks")]
+pub(crate) use search::search as search_hook;
 
 const REALTIME_BUCKET: &str = "unidata-nexrad-level2-chunks";
